@@ -22,23 +22,35 @@ from fractions import Fraction as F
 
 
 # ----------------------------------------------------------------------------- model of the conversions
+MODEL_D = {}      # rational -> (to_double q, ulp_of q) as computed by the extracted Coq model (coq/Float/Conv.v)
+
+
+def model_double_batch(qs_):
+    """ask the extracted Coq model (drv_solve query `todouble`) for to_double / ulp_of of every new rational"""
+    todo = sorted(set(q for q in qs_ if q not in MODEL_D), key=lambda q: (q.numerator, q.denominator))
+    if not todo:
+        return
+    tok = lambda q: str(q.numerator) if q.denominator == 1 else "%d/%d" % (q.numerator, q.denominator)
+    ans = run_model("drv_solve", "".join("Q %d todouble %s\n" % (i, tok(q)) for i, q in enumerate(todo)), jobs=1)
+    for i, q in enumerate(todo):
+        a = ans.get(str(i))
+        if a is None:
+            raise Fail("model query todouble gave no answer for %s" % tok(q))
+        MODEL_D[q] = (F(a[0]), F(a[1]))
+
+
 def expected_double(q):
-    """value of mpq_get_d(q): truncation toward zero to 53 significant bits (exact rational result).
-    ISOLATED CALL SITE: to be switched to the Coq model (`Q <id> todouble p/q` of drv_solve, coq/Float/Conv.v)
-    when that is merged; until then this Python rendering of the same definition is used."""
-    if q == 0:
-        return F(0)
-    s = -1 if q < 0 else 1
-    a = abs(q)
-    e = a.numerator.bit_length() - a.denominator.bit_length()      # 2^(e-1) <= a < 2^(e+1)
-    if F(2) ** e > a:
-        e -= 1                                                      # now 2^e <= a < 2^(e+1)
-    if e < -1022:                                                   # subnormal range: fixed exponent
-        unit = F(2) ** (-1074)
-    else:
-        unit = F(2) ** (e - 52)
-    mant = a // unit if isinstance(a // unit, int) else int(a / unit)
-    return s * mant * unit
+    """value of mpq_get_d(q) according to the Coq model to_double (truncation toward zero to 53 significant bits,
+    theorem to_double_bound); computed by the extracted model, never in Python"""
+    if q not in MODEL_D:
+        model_double_batch([q])
+    return MODEL_D[q][0]
+
+
+def model_ulp(q):
+    if q not in MODEL_D:
+        model_double_batch([q])
+    return MODEL_D[q][1]
 
 
 def ulp_of(d):
@@ -261,6 +273,7 @@ def check_precision(ck, cid, ops, prec, rec, Mq, stats, report):
     dcols, drows = [l for l in dd if l[0] == "DC"], [l for l in dd if l[0] == "DR"]
     dinf = [l for l in dd if l[0] == "DINF"][0]
     if cmp_struct("dbl", dd[0], dcols, drows):
+        model_double_batch([F(qt) for qt, dt, role in entries(dcols, drows) if qt not in ("inf", "-inf")])
         for qt, dt, role in entries(dcols, drows):
             stats["dbl_entries"] += 1
             if qt in ("inf", "-inf"):
@@ -278,8 +291,8 @@ def check_precision(ck, cid, ops, prec, rec, Mq, stats, report):
                 if dv != 0:
                     report("dbl-zero", cid, "%s 0 converted to %s" % (role, dt))
                 continue
-            if not abs(dv - qv) < ulp_of(dv):
-                report("dbl-bound", cid, "%s %s converted to %s: error %s >= 1 ulp" % (role, qt[:60], dt, float(abs(dv - qv))))
+            if not abs(dv - qv) < ulp_of(dv) or not abs(dv - qv) < model_ulp(qv) or abs(dv) > abs(qv):
+                report("dbl-bound", cid, "%s %s converted to %s: error %s >= 1 ulp (ulp of the model: %s)" % (role, qt[:60], dt, float(abs(dv - qv)), float(model_ulp(qv))))
             if dv != expected_double(qv):
                 report("dbl-model", cid, "%s %s converted to %s, the model of mpq_get_d (truncation to 53 bits) gives %s" % (role, qt[:60], dt, float(expected_double(qv))))
         dp = [l for l in dd if l[0] == "DP"][0][1:]
@@ -464,11 +477,11 @@ def main():
     ck.cov["reduced_precision"] = nC
     ck.cov["finding_groups"] = {str(k): len(v) for k, v in found.items()}
     ck.cov["traces_validated_against_impl"] = nA["ops"]
-    ck.cov["conversion_model"] = "Python rendering of mpq_get_d (truncation toward zero to 53 bits) in expected_double(); to be replaced by the Coq model query `todouble` (coq/Float/Conv.v) at merge"
+    ck.cov["conversion_model"] = "coq/Float/Conv.v to_double / ulp_of (theorem to_double_bound), evaluated by the extracted model (drv_solve query todouble) on every finite entry: %d distinct rationals" % len(MODEL_D)
     ck.assumptions = ["Coq kernel; extraction + OCaml for the copy/frame model", "ASan/UBSan for sharing of heap state (only observable through behaviour)",
                       "IEEE-754 binary64 doubles; exactness of Python Fractions", "the mpf bound is checked in exact arithmetic, no limb-level model of mpf_set_q"]
-    ck.finish(trusted_base=["coqc 8.16.1 kernel", "OCaml extraction", "gcc ASan+UBSan runtime", "harness h_store.c + drv_store + checks/C16.py (conversion bound in Python until coq/Float/Conv.v is merged)"],
-              extra=dict(not_covered="the conversion bound is not yet a Coq theorem in this branch (level of that half: exploration); sharing of heap state is only observable through behaviour; "
+    ck.finish(trusted_base=["coqc 8.16.1 kernel", "OCaml extraction", "gcc ASan+UBSan runtime", "harness h_store.c + drv_store + drv_solve (todouble) + checks/C16.py"],
+              extra=dict(not_covered="the mpf conversion bound is checked in exact arithmetic against the definition of truncation, not against a Coq model of mpf_set_q; sharing of heap state is only observable through behaviour; "
                                      "reporter callbacks and the objective name of copies are not compared"))
 
 
